@@ -426,13 +426,13 @@ fn minimise(c: &Case) -> Violation {
     let okey = c.res.key.as_ref().unwrap().0.clone();
     let ok2 = okey.clone();
     let fresh = c.fresh && okey == "run_vs_fresh_process";
-    let fails = move |r: &Run| -> bool { check_run(r, fresh).key.map(|(k, _)| k == ok2).unwrap_or(false) };
+    let fails = move |r: &Run| -> bool { fresh_thread(|| check_run(r, fresh)).key.map(|(k, _)| k == ok2).unwrap_or(false) };
     let (min, tried) = shrink_run(
         c.run.clone(),
         &fails,
         ShrinkOpts { drop_tasks: true, drop_players: true, narrow_scopes: true, max_candidates: if fresh { 120 } else { 400 } },
     );
-    let fin = check_run(&min, fresh);
+    let fin = fresh_thread(|| check_run(&min, fresh));
     let detail = fin.key.map(|x| x.1).unwrap_or_else(|| c.res.key.as_ref().unwrap().1.clone());
     let mut rj = min.to_json();
     rj["kind"] = json!("c15_run");
@@ -569,8 +569,6 @@ pub fn run(tier: &str) -> i32 {
             ev.probe("send_sync_probe_compiled", 1);
         }
         Ok((false, diag)) => {
-            let dir = verif_dir().join("replays");
-            let _ = std::fs::create_dir_all(&dir);
             let first = diag.lines().find(|l| l.contains("cannot be")).unwrap_or("").trim().to_string();
             ev.violations.push(Violation {
                 property: "C15".into(),
@@ -592,7 +590,7 @@ pub fn run(tier: &str) -> i32 {
     let n_fresh: usize = if quick { 250 } else { 6_000 };
     let thorough = !quick;
     for (batch, n, fresh) in [("inproc", n_plain, false), ("fresh", n_fresh, true)] {
-        let cases = par_map(n, workers(), move |i| gen_case(run_seed(vs, "C15", batch, i as u64), thorough, fresh));
+        let cases = par_map(n, workers(), move |i| fresh_thread(|| gen_case(run_seed(vs, "C15", batch, i as u64), thorough, fresh)));
         for c in cases {
             ev.evaluations += 1;
             ev.steps += c.res.next_calls;
